@@ -10,6 +10,12 @@ def register(PROPS, HARNESS_PKGS):
         "trace": {"module": "PassthroughTrace", "cfg": "Passthrough_trace.cfg"},
         "nontrivial": lambda s: len(set(s["types"].values())) > 1 or any(p != "ok" for p in s["plans"].values()),
     }
+    # a deployment's own profile whose anthropic_support block is switched off (see verifCustomProfiles)
+    ctypes = '{"vllm", "verifoff", "openai-compatible"}'
+    custom = dict(part)
+    custom.update({"name": "custom", "mc": [], "env": {"VERIF_CUSTOM_PROFILES": "1"},
+                   "quick": {"gen": [{"module": "Passthrough", "cfg": "Passthrough_gen.cfg", "params": {"EP": '{"e1", "e2"}', "Types": ctypes}}], "sample": 150},
+                   "thorough": {"gen": [{"module": "Passthrough", "cfg": "Passthrough_gen.cfg", "params": {"EP": '{"e1", "e2", "e3"}', "Types": ctypes}}], "sample": 1500}})
     PROPS["C14"] = {
         "rule": "TLC enumerates passthrough on/off x stream x endpoint-type mix (native and non-native profiles) x healthy "
                 "subset x per-endpoint fault (ok / reset before a byte / refused); each boots the assembled server, posts "
@@ -18,5 +24,5 @@ def register(PROPS, HARNESS_PKGS):
                 "from config/profiles/*.yaml. Non-trivial = mixed types or a failing endpoint.",
         "exhaustive": True,
         "assumptions": ["'translated body' = JSON chat request with messages, without Anthropic-only top-level fields, and not byte-identical to the client's"],
-        "parts": [part],
+        "parts": [part, custom],
     }
